@@ -278,6 +278,15 @@ def client_record(seed, with_lists=True):
     lam = rnd.choice([0, 1.0, None])
     if lam is not None:
         mp["lambda_"] = lam
+    if frac < 1.0 and rnd.random() < 0.3:
+        # an error bound on the expected-vote percentage larger than one half: for a unit between 50 percent and the bound
+        # the naive denominator (percentage - bound) is negative - the admissible range handed to the clips must stay a
+        # range (lower <= upper, turnout not negative; seeded change C06_J)
+        mp["percent_expected_vote_error_bound"] = rnd.choice([0.6, 0.75])
+        nonrep_idx = cur.index[cur.percent_expected_vote < 100]
+        if len(nonrep_idx):
+            cur["percent_expected_vote"] = cur["percent_expected_vote"].astype(float)
+            cur.loc[nonrep_idx[-1], "percent_expected_vote"] = rnd.choice([50.0, 55.0, 58.0])
     fe = rnd.choice([{}, {}, {"county_classification": "all"}, {"postal_code": "all"}])
     alphas = sorted(rnd.sample([0.5, 0.7, 0.9, 0.95, 0.99], rnd.choice([2, 3])))
     if district:
